@@ -454,10 +454,15 @@ deriving Repr
 abbrev Dataset := List File
 
 /-- every row lives in the partition of its own `time` (property C03; day files hold compacted hours). -/
+def Part.contains : Part → Int → Bool
+  | .hour h, t => decide (hourOf t = h)
+  | .day d, t => decide (dayOf t = d)
+
 def WellPlaced (ds : Dataset) : Prop :=
-  ∀ f ∈ ds, ∀ r ∈ f.rows, match f.part with
-    | .hour h => hourOf r.time = h
-    | .day d => dayOf r.time = d
+  ∀ f ∈ ds, ∀ r ∈ f.rows, f.part.contains r.time = true
+
+instance (ds : Dataset) : Decidable (WellPlaced ds) := by
+  unfold WellPlaced; infer_instance
 
 def Part.inPaths (ps : Paths) : Part → Bool
   | .hour h => decide (h ∈ ps.hours)
